@@ -1,0 +1,36 @@
+//go:build verif
+
+package flow
+
+// Contracts for the step runner, checked by /verif/bin/govc (comment-only file; compiles to nothing).
+
+// The exit indirection does not return (assumption A-exit); a call is recorded as evExit(code).
+//@ noreturn field Step.Exiter
+
+// stepsWF: every step can exit, and a step that runs user code has an error successor (true of every chain cli builds)
+//@ pure static func stepsWF() bool = forall q *Step :: q != nil ==> q.Exiter != nil && (q.Do != nil ==> q.Error != nil)
+
+// User code is an oracle: cbReturns(f, n) says whether the call of f made when the trace had length n returns,
+// cbPanicVal(f, n) is what it raises otherwise (cli.Exit(k) raises ExitCode(k)).  Each call is the event evCall(f).
+//@ pure static func stepPanics(s *Step, t trace) bool = s.Do != nil && !cbReturns(s.Do, len(t))
+//@ pure static func stepT(s *Step, t trace) trace = s.Do != nil ? t ++ seq(evCall(s.Do)) : t
+// run*: the configuration (step, pending value, trace) walks Success links while user code returns and jumps to the
+// Error link with the raised value when it panics; at the end of the chain the pending value decides.
+//@ pure static rec func runT(s *Step, p any, t trace) trace =
+//@     stepPanics(s, t) ? runT(s.Error, cbPanicVal(s.Do, len(t)), stepT(s, t)) :
+//@     s.Success != nil ? runT(s.Success, p, stepT(s, t)) :
+//@     (p != nil && isType(p, "ExitCode")) ? stepT(s, t) ++ seq(evExit(asType(p, "ExitCode"))) : stepT(s, t)
+// outcome: 0 returns normally, 1 raises runV, 2 exits
+//@ pure static rec func runK(s *Step, p any, t trace) int =
+//@     stepPanics(s, t) ? runK(s.Error, cbPanicVal(s.Do, len(t)), stepT(s, t)) :
+//@     s.Success != nil ? runK(s.Success, p, stepT(s, t)) :
+//@     p == nil ? 0 : (isType(p, "ExitCode") ? 2 : 1)
+//@ pure static rec func runV(s *Step, p any, t trace) any =
+//@     stepPanics(s, t) ? runV(s.Error, cbPanicVal(s.Do, len(t)), stepT(s, t)) :
+//@     s.Success != nil ? runV(s.Success, p, stepT(s, t)) : p
+
+//@ func (*Step).Run
+//@   requires wf: stepsWF() && s != nil
+//@   ensures normal: p == nil && runK(s, p, old(trace)) == 0 && trace == runT(s, p, old(trace))
+//@   panics raise: runK(s, p, old(trace)) == 1 && panicval == runV(s, p, old(trace)) && trace == runT(s, p, old(trace))
+//@   exits exit: runK(s, p, old(trace)) == 2 && trace == runT(s, p, old(trace))
